@@ -2,7 +2,7 @@
 
 from ..common import graph_walk, model_walk, run_kinds
 from ..core import AnalysisError
-from ..ir import Walker, mk_not, show, subterms
+from ..ir import Walker, has_guard, mk_not, show, subterms
 from ..kinds import count_of
 from ..rules_ift import Rep
 from ..schema import is_flag, is_matrix, weight_terms
@@ -123,8 +123,8 @@ def check_row_ids(chk, rep, repo, only=None, floor=3):
                     if Xsrc[0] == "param" and Xsrc[1].startswith("X"):
                         Ip = ("param", "I" + Xsrc[1][1:])
                         given = ("cmp", "is not", Ip, ("const", None))
-                        has_arr = any(g == given and pol for g, pol in ev.guards)
-                        no_arr = any(g == given and not pol for g, pol in ev.guards)
+                        has_arr = has_guard(ev.guards, given)
+                        no_arr = has_guard(ev.guards, mk_not(given))
                         if idx[0] == "call" and idx[1][0] == "attr" and idx[1][2] == "item" \
                                 and idx[1][1] == ("idx", Ip, counter):
                             ok = has_arr
@@ -217,7 +217,7 @@ def check_builders(chk, rep, repo):
         alg = TermAlgebra()
         okn = False
         for r in rets:
-            if any(g == ("param", "normalize") and pol for g, pol in r.guards):
+            if has_guard(r.guards, ("param", "normalize")):
                 d = alg.conv(("free", "D"))
                 mn = alg.conv(("call", ("attr", D, "min"), (), ()))
                 mx = alg.conv(("call", ("attr", D, "max"), (), ()))
